@@ -154,6 +154,29 @@ def namelists(res, fail):
                 fail(kind='uniqueness(id pre-image)', structure=repr(ns), protocol=None, problem='element names %r and %r are hashed through the same joined string %r' % (seen[j], ns, j)); return
             seen[j] = ns
 
+def shape_ids(res, fail):
+    """the content-derived shape id must tell apart any two argument tuples of _get_object_shape_id that differ in what the descriptor shows:
+    element types, names, cardinalities, per-element source types, link / link-property flags (all small argument tuples)"""
+    import itertools, uuid
+    from edb.server.compiler import enums
+    U = [uuid.UUID(int=i + 1) for i in range(3)]
+    cards = [enums.Cardinality.ONE, enums.Cardinality.AT_MOST_ONE, enums.Cardinality.MANY]
+    seen = {}; res['shape_ids'] = 0
+    for k in (1, 2, 3):
+        for subtypes in itertools.product(U[:2], repeat=k):
+            for names in itertools.product(['a', 'b', 'c'], repeat=k):
+                if len(set(names)) != k: continue
+                for cs in itertools.product(cards[:2] if k == 3 else cards, repeat=k):
+                    for sources in ([None] + list(itertools.product(U, repeat=k))):
+                        for flags in ((None, None), ([False] * k, [True] + [False] * (k - 1)), ([True] + [False] * (k - 1), [False] * k)):
+                            args = (tuple(subtypes), tuple(names), tuple(cs), None if sources is None else tuple(sources), None if flags[0] is None else tuple(flags[0]), None if flags[1] is None else tuple(flags[1]))
+                            i = sertypes._get_object_shape_id('T', list(subtypes), list(names), list(cs), links_props=flags[0], links=flags[1], sources=None if sources is None else list(sources))
+                            res['shape_ids'] += 1
+                            if i in seen and seen[i] != args:
+                                fail(kind='uniqueness(shape id)', structure=repr(args), protocol=None,
+                                     problem='_get_object_shape_id gives %s for two different shapes: (subtypes, names, cardinalities, sources, links_props, links) = %r and %r' % (i, seen[i], args)); return
+                            seen[i] = args
+
 def main():
     seed, n, out = int(sys.argv[1]), int(sys.argv[2]), sys.argv[3]
     rnd = random.Random(seed); res = dict(types=0, params=0, failure=None)
@@ -211,6 +234,7 @@ def main():
             if a[1] == b[1] and a[0] != b[0]: fail(kind='uniqueness(params)', structure='<str>$x vs <optional str>$x', protocol=pv, problem='equal descriptor ids with different contents')
     if not res['failure']: shapes(schema, scalars, rnd, max(20, n // 3), res, fail)
     if not res['failure']: namelists(res, fail)
+    if not res['failure']: shape_ids(res, fail)
     json.dump(res, open(out, 'w'), indent=1, default=str)
 
 if __name__ == '__main__':
